@@ -5,7 +5,7 @@ CONSTANTS
   MaxPool = 1
   MaxSize = 64
   Raise = FALSE
-  Devs = {"UnnamedNoAlign", "UnionUnnamedIgnored", "PackedNoFinalAlign"}
+  Devs = {}
   Widths = {0, 1, 7, 8, 9, 31, 32, 33, 63, 64}
   Emit = FALSE
   CharSigned = TRUE
@@ -15,6 +15,7 @@ CONSTANTS
   McSel = "full"
   CheckSim = FALSE
   MaxParams = 0
+  AbiDevs = {}
   MaxExtra = 0
 INVARIANTS Inv_Descr
 CHECK_DEADLOCK FALSE
